@@ -170,6 +170,10 @@ def judge_outputs(case):
     results = []
     for tag, outs in (("int", as_int), ("str", as_str), ("mixed", mixed), ("noncanonical-str", loose)):
         o = lib.budgeted(lib.parse_output, 200000 + 400 * len(values), c, list(outs))
+        if o[0] == "jaqal" and tag == "noncanonical-str":
+            # refusing a non-canonical string with a JaqalError is within the property
+            info["noncanonical_refused"] = info.get("noncanonical_refused", 0) + 1
+            continue
         if o[0] != "ok":
             fails.append(("outputs:%s-rejected:%s" % (tag, o[0]), {"info": str(o[1:3])[:200], "n": n}))
             return "ok", fails, info
